@@ -352,9 +352,11 @@ func TestVerif_C19A(t *testing.T) {
 	// WHICH agent: the exported entry points that use the default agent location, in every agent environment
 	// situation, with decoy agents listening where agents conventionally live
 	wcases, widx := c19aEnvCases(t, res, rng, pool, mkCert, labels, logger)
+	// LABELS: every class of label byte string x repeated installations into one agent
+	lcases, lidx := c19aLabelCases(t, res, rng, pool, mkCert, logger)
 	var sb strings.Builder
 	sb.WriteString(coqCaseHeader)
-	sb.WriteString("From KM Require Import Base.Cases Model.Client Model.ClientEnv.\n")
+	sb.WriteString("From KM Require Import Base.Cases Model.Client Model.ClientEnv Model.ClientLabel.\n")
 	sb.WriteString("Definition histories : list (list (aop * agent)) := [\n" + strings.Join(cases, ";\n") + "\n].\n")
 	sb.WriteString("Definition c19a_bad (h : list (aop * agent)) : bool := negb (acheck [] h).\n")
 	sb.WriteString("Definition c19a_mismatches := Eval vm_compute in mismatches c19a_bad histories.\nPrint c19a_mismatches.\n")
@@ -367,12 +369,19 @@ func TestVerif_C19A(t *testing.T) {
 	// observed: the identity is in an agent that SSH_AUTH_SOCK does not name
 	sb.WriteString("Definition c19ae_violating := Eval vm_compute in mismatches (fun c => c19ae_bad c && wviolates c) wcases.\nPrint c19ae_violating.\n")
 	sb.WriteString("Definition c19ae_ncases := Eval vm_compute in length wcases.\nPrint c19ae_ncases.\n")
+	sb.WriteString("Definition lcases : list lcase := [\n" + strings.Join(lcases, ";\n") + "\n].\n")
+	sb.WriteString("Definition c19al_bad (c : lcase) : bool := negb (lcheck c).\n")
+	sb.WriteString("Definition c19al_mismatches := Eval vm_compute in mismatches c19al_bad lcases.\nPrint c19al_mismatches.\n")
+	// observed: more or fewer than one certificate under the label, an earlier certificate of the label still listed, or collateral
+	sb.WriteString("Definition c19al_violating := Eval vm_compute in mismatches (fun c => c19al_bad c && lviolates c) lcases.\nPrint c19al_violating.\n")
+	sb.WriteString("Definition c19al_ncases := Eval vm_compute in fold_left (fun n (c : lcase) => (n + N.of_nat (length (snd c)))%N) lcases 0%N.\nPrint c19al_ncases.\n")
 	sb.WriteString("Definition c19a_ncases := Eval vm_compute in fold_left (fun n (h : list (aop * agent)) => (n + N.of_nat (length h))%N) histories 0%N.\nPrint c19a_ncases.\n")
 	if err := ioutil.WriteFile(filepath.Join(verifOut(), "CasesC19A.v"), []byte(sb.String()), 0644); err != nil {
 		t.Fatal(err)
 	}
 	ioutil.WriteFile(filepath.Join(verifOut(), "CasesC19A.idx"), []byte(strings.Join(idx, "\n")+"\n"), 0644)
 	ioutil.WriteFile(filepath.Join(verifOut(), "CasesC19AE.idx"), []byte(strings.Join(widx, "\n")+"\n"), 0644)
+	ioutil.WriteFile(filepath.Join(verifOut(), "CasesC19AL.idx"), []byte(strings.Join(lidx, "\n")+"\n"), 0644)
 	if len(idx) > 0 {
 		res.sample(idx[0])
 	}
@@ -473,6 +482,156 @@ func c19aEnvCases(t *testing.T, res *verifResult, rng interface{ Intn(int) int }
 	}
 	if len(idx) > 0 {
 		res.sample(idx[len(idx)-1])
+	}
+	return cases, idx
+}
+
+// ---------------------------------------------------------------- labels
+
+// for every label class: identities of somebody else under the labels of the family, then the client's real
+// WithAddedKeyUpsertCertIntoAgentConnection again and again (fresh certificates of changing key types; the same key
+// twice in a row too) under the first label, interleaved with installations under the neighbouring labels.
+// Observed: the listing after every installation; Coq: Model/ClientLabel.v install_cert (lcheck).
+// Oracle (independent of the model, it tracks what the agent reports): a certificate that an earlier installation
+// under the label put into the agent is still there after a later one.
+func c19aLabelCases(t *testing.T, res *verifResult, rng interface{ Intn(int) int }, pool []c19aKey, mkCert func(c19aKey) *ssh.Certificate, logger *testlogger.Logger) (cases, idx []string) {
+	rounds := 1
+	if verifThorough() {
+		rounds = 12
+	}
+	show := func(l string) string {
+		if len(l) > 60 {
+			return fmt.Sprintf("%q...(%d bytes)", l[:40], len(l))
+		}
+		return fmt.Sprintf("%q", l)
+	}
+	for round := 0; round < rounds; round++ {
+		for fi, fam := range c19eLabelFamilies(rng) {
+			if fam.class == "long" && round >= 2 {
+				continue // kilobyte labels are repeated in every listing: two rounds of them are enough
+			}
+			kr := agent.NewKeyring()
+			// somebody else's identities: a plain key under the label itself, certificates under the neighbours
+			fk := pool[rng.Intn(len(pool))]
+			kr.Add(agent.AddedKey{PrivateKey: fk.raw, Comment: fam.labels[0]})
+			for _, nb := range fam.labels[1:] {
+				k := pool[rng.Intn(len(pool))]
+				kr.Add(agent.AddedKey{PrivateKey: k.raw, Certificate: mkCert(k), Comment: nb})
+			}
+			start := c19aListing(t, kr)
+			// which label each installation uses: mostly the first, the neighbours in between
+			plan := []int{0, 0, 1, 0, 0}
+			if len(fam.labels) > 2 {
+				plan = append(plan, 2, 0)
+			}
+			for extra := rng.Intn(3); extra > 0; extra-- {
+				plan = append(plan, rng.Intn(len(fam.labels)))
+			}
+			plan = append(plan, 0)
+			type installed struct {
+				label int
+				blob  string
+			}
+			var earlier []installed
+			var steps, descs []string
+			prevKey := -1
+			for si, li := range plan {
+				ki := (fi + si + round) % len(pool)
+				if si == 4 && prevKey >= 0 {
+					ki = prevKey // the same key again: a renewed certificate for it
+				}
+				prevKey = ki
+				key, label := pool[ki], fam.labels[li]
+				before := c19aListing(t, kr)
+				cert := mkCert(key)
+				c1, c2 := net.Pipe()
+				go agent.ServeAgent(kr, c2)
+				err := WithAddedKeyUpsertCertIntoAgentConnection(agent.AddedKey{PrivateKey: key.raw, Certificate: cert, Comment: label, LifetimeSecs: 3600}, c1, logger)
+				c1.Close()
+				h := sha256.Sum256(cert.Marshal())
+				blob := string(h[:8])
+				after := c19aListing(t, kr)
+				descs = append(descs, fmt.Sprintf("install %s under %s -> %d entries", key.kind, show(label), len(after)))
+				cs := map[string]interface{}{"label_class": fam.class, "label_bytes": fmt.Sprintf("%x", label), "family": fmt.Sprintf("%q", fam.labels), "ops": append([]string(nil), descs...)}
+				if len(label) > 80 {
+					cs["label_bytes"] = fmt.Sprintf("%x...(%d bytes)", label[:40], len(label))
+					cs["family"] = "the label, the label without its last byte, the label + \"x\""
+				}
+				if err != nil {
+					t.Errorf("install under %s failed: %v", show(label), err)
+					res.hit(verifHit{Key: "C19:harness:upsert", Oracle: "harness", What: "installation into the keyring failed: " + err.Error(), Case: cs})
+				}
+				// (1) what the agent holds of the EARLIER installations under this label, whatever it calls them
+				stale := 0
+				for _, old := range earlier {
+					if old.label != li || old.blob == blob {
+						continue
+					}
+					for _, e := range after {
+						if e.blob == old.blob {
+							stale++
+						}
+					}
+				}
+				// (2) what the agent reports under the label
+				under, reported := 0, "(not listed)"
+				for _, e := range after {
+					if e.cert && e.comment == label {
+						under++
+					}
+					if e.blob == blob {
+						reported = e.comment
+					}
+				}
+				if stale > 0 || under > 1 {
+					res.hit(verifHit{Key: "C19:agent-label-accumulates:" + fam.class, Oracle: "a certificate installed under a label replaces the ones installed under that label before", Kind: "history",
+						What: fmt.Sprintf("after installation %d under the label %s (class %s) the agent still holds %d certificate(s) that earlier installations under the same label put there; it reports %d certificate(s) under the label and calls the new one %s",
+							si+1, show(label), fam.class, stale, under, show(reported)), Case: cs, Observed: stale})
+				} else if err == nil && (under != 1 || reported != label) {
+					res.hit(verifHit{Key: "C19:agent-label-not-kept:" + fam.class, Oracle: "the certificate is in the agent under the label the client was given", Kind: "history",
+						What: fmt.Sprintf("after installing under the label %s (class %s) the agent reports %d certificate(s) under it and calls the new one %s", show(label), fam.class, under, show(reported)), Case: cs, Observed: reported})
+				}
+				// (3) nothing else went away: plain keys, the neighbours' certificates
+				for _, e := range before {
+					if (e.cert && e.comment == label) || e.blob == blob {
+						continue
+					}
+					mine := false
+					for _, old := range earlier {
+						if old.label == li && old.blob == e.blob {
+							mine = true
+						}
+					}
+					if mine {
+						continue
+					}
+					found := false
+					for _, a := range after {
+						if a == e {
+							found = true
+						}
+					}
+					if !found {
+						res.hit(verifHit{Key: "C19:agent-label-collateral:" + fam.class, Oracle: "installing a certificate under a label leaves identities under other labels (however close) alone", Kind: "history",
+							What: fmt.Sprintf("installing under %s removed or renamed the identity %s (certificate: %v)", show(label), show(e.comment), e.cert), Case: cs})
+					}
+				}
+				earlier = append(earlier, installed{li, blob})
+				steps = append(steps, fmt.Sprintf("(%s, %s, %s)", coqPacked([]byte(label)), coqPacked([]byte(blob)), c19aCoqListing(after)))
+				res.bump("label:" + fam.class)
+				res.eval(fmt.Sprintf("label|%s|%d|%s|%d|%d", fam.class, li, key.kind, si, len(before)), si > 0)
+			}
+			cases = append(cases, fmt.Sprintf(" (%s,\n  [%s])", c19aCoqListing(start), strings.Join(steps, ";\n   ")))
+			idx = append(idx, fmt.Sprintf("%d\tlabel class %s, label bytes %s (%d bytes); %s", len(idx), fam.class, func() string {
+				if len(fam.labels[0]) > 60 {
+					return fmt.Sprintf("%x...", fam.labels[0][:40])
+				}
+				return fmt.Sprintf("%x", fam.labels[0])
+			}(), len(fam.labels[0]), strings.Join(descs, " | ")))
+		}
+	}
+	if len(idx) > 0 {
+		res.sample(idx[1])
 	}
 	return cases, idx
 }
